@@ -105,3 +105,15 @@ CHECKS["C08"] = {"pkg": "ipamsim", "test": "TestC08", "level": "fault_enumeratio
             "Non-trivial = k>=2 and (a creation failed at index >=1, a range was exhausted, or a range was pre-owned).",
     "assumptions": IPAM_ASSUME + ["no cloud provider (the statement is about store calls)", "a failing creation has no effect"],
     "floors": {"create_failed_at_index_ge_1": 0.03}}
+
+CHECKS["C11"] = {"pkg": "ipamsim", "test": "TestC11", "level": "exploration",
+    "quick": {"checks": 1500, "timeout": 900}, "thorough": {"checks": 120000, "shards": 16, "timeout": 2400},
+    "rule": "rapid draws 1-40 pods with DNS-1123 namespaces/names (length up to 63, heavy '-' and digits, reserved words like sts/dp/pool/null), "
+            "owner in {none, StatefulSet, ReplicaSet with/without '-', Deployment, TApp, arbitrary kinds, case variants, two owners}, pool "
+            "name in {none, DNS-1123}, plus page in [-1,100000] and size in [-1,10000]. Oracle: distinct pods => distinct keys; "
+            "ParseKey(FormatKey(p)) returns pod/app/namespace/type/pool; prefixes are prefixes; then through the real /v1/ip routes on a "
+            "real plugin: walking all pages shows every IP exactly once with consistent first/last/total; every releasable listed entry "
+            "posted back verbatim (statefulset entries also with appType omitted) frees exactly that IP, non-releasable ones free nothing. "
+            "Non-trivial = >=3 distinct owner kinds among the allocations and >=2 pages.",
+    "assumptions": ["names are DNS-1123 (no '_'), pool names are Pool object names", "fake API server; allocations made through the real IPAM"],
+    "floors": {"multi_page": 0.3, "three_owner_kinds": 0.2}}
